@@ -510,7 +510,10 @@ class DoitCmdBase(Command):
         # set choices, sub-classes might not have this option
         if 'backend' in self.cmdparser:
             choices = {k: getattr(v, 'desc', '') for k, v in backend_map.items()}
-            self.cmdparser['backend'].choices = choices
+            opt = self.cmdparser['backend']
+            opt.choices = choices
+            # a value from a config file was set before the choices were known
+            opt.validate_choice(opt.default)
 
         return backend_map
 
@@ -540,6 +543,9 @@ class DoitCmdBase(Command):
 
         # create dep manager
         db_class = self._backends.get(params['backend'])
+        if db_class is None:
+            # a value from DOIT_CONFIG is not checked by the parser
+            self.cmdparser['backend'].validate_choice(params['backend'])
         checker_cls = self.get_checker_cls(params['check_file_uptodate'])
         codec_cls = self.get_codec_cls(params['codec_cls'])
         # note the command have the responsibility to call dep_manager.close()
